@@ -159,6 +159,10 @@ fn do_validate<'a>(
     // all the files of one invocation so a failure in an earlier file must not
     // leak into the verdict or the log of this one.
     env.borrow_mut().assert_results = build::AssertCollector::new();
+    // An imported file's assertions count for every test file that imports it,
+    // so imports are evaluated again for each test file instead of being
+    // served from the values an earlier file cached.
+    env.borrow_mut().val_cache.clear();
     match build_file(file, true, strict, import_paths, env) {
         Ok(b) => {
             if b.assert_results() {
